@@ -88,8 +88,12 @@ def history_job(hid, mode, universe, muts, queries, rng, first=()):
             m['op'] = 'ctor'
         steps.append(m)
         steps += queries(rng)
-    return {'op': 'sccs_history', 'id': hid, 'mode': mode, 'universe': universe,
-            'steps': steps}
+    job = {'op': 'sccs_history', 'id': hid, 'mode': mode, 'universe': universe,
+           'steps': steps}
+    if mode == 'hashable' and random.Random(hid).random() < 0.4:
+        # the caller passes one set object of its own, refilled for every call
+        job['argstyle'] = 'scratch'
+    return job
 
 
 def exhaustive_histories(rng, tier):
